@@ -255,6 +255,20 @@ Marker ==
     /\ Rec[tpos].send /\ Rec[tpos].sync                        \* cipher values are Send + Sync (C15)
     /\ UNCHANGED <<inst, perm, lanes, seen1, names, zimgs>>
 
+\* compile-time facts of a concrete type as the driver sees them through the traits: block size, array key size,
+\* which directions and conversions exist, Clone/Send/Sync - must be what the catalogue says (C11, C12, C15)
+TypeInfo ==
+    /\ IsEvent("typeinfo")
+    /\ LET e == Rec[tpos] IN
+       /\ e.type \in TypeNames
+       /\ e.bs = BlockLen(e.type)
+       /\ e.key_size = ArrayKeyLen(e.type)
+       /\ e.kind = Kind(e.type)
+       /\ {e.conv[i] : i \in 1..Len(e.conv)} = ConvTargets(e.type)
+       /\ e.clone = Cloneable(e.type)
+       /\ e.send /\ e.sync
+    /\ UNCHANGED <<inst, perm, lanes, seen1, names, zimgs>>
+
 \* events of other layers (checked by the L2 conformance specs) and pure bookkeeping
 Ignored == {"haz", "bc", "raw", "send", "eval"}
 Skip == tpos <= N /\ Rec[tpos].ev \in Ignored /\ "known" \notin DOMAIN Rec[tpos] /\ tpos' = tpos + 1
@@ -265,7 +279,7 @@ KnownFinding == tpos <= N /\ "known" \in DOMAIN Rec[tpos] /\ tpos' = tpos + 1
                 /\ UNCHANGED <<inst, perm, lanes, seen1, names, zimgs>>
 
 Next == \/ New \/ WeakTest \/ Clone \/ From \/ Drop \/ One("enc") \/ One("dec") \/ Blocks \/ WBlock
-        \/ Debug \/ AlgName \/ ZImg \/ ZEnd \/ Reset \/ End \/ Marker \/ Skip \/ KnownFinding
+        \/ Debug \/ AlgName \/ ZImg \/ ZEnd \/ Reset \/ End \/ Marker \/ TypeInfo \/ Skip \/ KnownFinding
 Spec == Init /\ [][Next]_vars
 
 TraceAccepted ==
